@@ -89,6 +89,8 @@ type recorder struct {
 	ledgerOn  bool
 	poke      string // the harness is calling a method of a connection handle in this situation (e.g. stale-handle)
 	efdWrites int    // writes to a wake-up descriptor (any thread): a task has been queued for a loop
+	nCloses   int    // close(2) calls on descriptors the framework owned (any thread)
+	nStray    int    // close(2) calls on descriptor numbers it did not own at that point
 	canaries  map[int]*net.UDPConn
 
 	// per-connection ground truth for the oracles
@@ -548,6 +550,11 @@ func (r *recorder) After(c *vunix.Call) {
 		}
 	case "close":
 		if !c.Skip {
+			if _, ok := r.owned[c.Fd]; ok {
+				r.nCloses++
+			} else if c.Fd >= 0 {
+				r.nStray++
+			}
 			delete(r.owned, c.Fd)
 		}
 		if r.closedInBatch != nil {
